@@ -24,6 +24,8 @@ def load_for(what, diff_load):
         nm = max(nm, 300)
     if what == 'keygen_search':
         ns, nm = 20000, 0
+    if what == 'roundtrip_search':
+        ns, nm = 40000, 0               # honest sign -> verify; a rejection typically needs an event of probability about 1e-4 per signature
     if what == 'derive':
         ns, nm = max(ns, 15000), 0      # directed search: a derivation defect typically needs a rare key (about 1 in 10^4)
     return ns, nm
